@@ -141,7 +141,7 @@ def _judge_file(path):
         tree = None
         tree_id = None
         tree_raw = ""
-        with open(path) as f:
+        with open(path, encoding="latin-1") as f:
             for line in f:
                 p = line.rstrip("\n").split("\t")
                 if p[0] == "T":
